@@ -163,6 +163,15 @@ def cases(tier: str) -> List[Dict[str, Any]]:
             out.append(dict(cls="modid", graph=gname, core=False, files=[f1, f2]))
             out.append(dict(cls="hostid", graph=gname, core=False, files=[f1, f2]))
             out.append(dict(cls="modname", graph=gname, core=False, files=[f1, f2]))
+        # the clashing pair among unrelated ids: every arrangement of {higher, lower} by-standers before / between / after the pair
+        if tier == "thorough" or gname in ("single", "fan2", "diamond"):
+            pats = sorted({"".join(p) for n in (3, 4) for p in itertools.permutations("ABHL"[:n] if n == 4 else "ABH") } | {"".join(p) for p in itertools.permutations("ABL")})
+            for cls_ in ("modid-among", "hostid-among", "msgid-among"):
+                for pat in pats:
+                    for (f1, f2) in (pairs if tier == "thorough" else [p for p in pairs if p[0] == "root.yaml" or p[0] == p[1]]):
+                        out.append(dict(cls=cls_, graph=gname, core=False, files=[f1, f2], pattern=pat))
+                        if files[-1] not in (f1, f2):
+                            out.append(dict(cls=cls_, graph=gname, core=False, files=[f1, f2], pattern=pat, bystander_file=files[-1]))
         # conflict-free placements
         defs = [("constant", "C_A"), ("alias", "AL_B"), ("struct", "ST_C"), ("message", "MS_D")]
         for k in range(1, 5):
@@ -250,6 +259,24 @@ def build(case) -> Tuple[Files, str, Optional[Dict[str, Any]]]:
         fl.add(f1, "module_ids", ["  MOD_A: 42"])
         fl.add(f2, "module_ids", ["  MOD_B: 42"])
         return fl, "ModuleIDError", None
+    if cls in ("modid-among", "hostid-among", "msgid-among"):
+        # unrelated items with larger and smaller ids around the clashing pair, in every arrangement of the given pattern:
+        # pattern is a string over {H (higher id), L (lower id), A, B (the pair)} giving the declaration order in ONE file, or the
+        # by-standers live in the file imported first
+        f1, f2 = case["files"]
+        sec, fmt, lo, hi, dup = {"modid-among": ("module_ids", "  {n}: {v}", 20, 80, 42), "hostid-among": ("host_ids", "  {n}: {v}", 3, 90, 7),
+                                 "msgid-among": ("message_defs", None, 2400, 2600, 2500)}[cls]
+        k = 0
+        for ch in case["pattern"]:
+            k += 1
+            if ch in "HL":
+                val = (hi if ch == "H" else lo) + k
+                tgt = case.get("bystander_file") or f1
+                name = f"BY{k}"
+            else:
+                val, tgt, name = dup, (f1 if ch == "A" else f2), f"DUP_{ch}"
+            fl.add(tgt, sec, item_lines("signal", name, val) if fmt is None else [fmt.format(n=name, v=val)])
+        return fl, {"modid-among": "ModuleIDError", "hostid-among": "HostIDError", "msgid-among": "MessageIDError"}[cls], None
     if cls == "modname":
         f1, f2 = case["files"]
         fl.add(f1, "module_ids", ["  MOD_A: 42"])
@@ -362,6 +389,85 @@ def cli_exit_code(case, d: str) -> int:
         sys.argv = argv
 
 
+def reused_parser(_=None) -> List[Optional[Dict[str, Any]]]:
+    """one Parser object is used again after a parse that failed (and after one that succeeded): what the earlier parse had
+    registered - items of every kind, ids, files already read - must not turn into conflicts of the next closure"""
+    from pyrtma import parser as PP
+
+    out: List[Optional[Dict[str, Any]]] = []
+    d = core.scratch_dir("c12r")
+    everything = {"constants": ["  KEEP_C: 5"], "string_constants": ['  KEEP_S: "txt"'], "aliases": ["  KEEP_A: int32"], "host_ids": ["  KEEP_H: 9"],
+                  "module_ids": ["  KEEP_M: 44"], "struct_defs": ["  KEEP_ST:", "    fields:", "      a: int32"],
+                  "message_defs": ["  KEEP_MS:", "    id: 2100", "    fields:", "      a: int32", "  KEEP_SIG:", "    id: 2101", "    fields: null"]}
+    late_failures = {"MessageIDError": ["  CLASH_1:", "    id: 2200", "    fields: null", "  CLASH_2:", "    id: 2200", "    fields: null"],
+                     "DuplicateNameError": ["  KEEP_C:", "    id: 2300", "    fields: null"],
+                     "RTMASyntaxError": ["  TOO_BIG:", "    id: 10001", "    fields: null"]}
+
+    def write(name, sections, imports=()):
+        lines = []
+        if imports:
+            lines += ["imports:"] + [f"  - {p}" for p in imports]
+        for sec in defx.SECTIONS:
+            if sec in sections:
+                lines += [f"{sec}:"] + sections[sec]
+        p = os.path.join(d, name)
+        os.makedirs(os.path.dirname(p), exist_ok=True)
+        with open(p, "w") as fh:
+            fh.write("\n".join(lines) + "\n")
+        return p
+
+    def parse(pr, path):
+        try:
+            with contextlib.redirect_stdout(io.StringIO()), contextlib.redirect_stderr(io.StringIO()):
+                pr.parse(path)
+            return "ok"
+        except PP.ParserError as e:
+            return type(e).__name__
+        except Exception as e:
+            return f"non-ParserError:{type(e).__name__}"
+
+    try:
+        for graph in ("single", "imported"):
+            for fail, extra in late_failures.items():
+                bad = {k: list(v) for k, v in everything.items()}
+                bad["message_defs"] = bad["message_defs"] + extra
+                if graph == "single":
+                    bad_root = write("bad/root.yaml", bad)
+                    good_root = write("good/root.yaml", everything)
+                else:
+                    write("bad/lib.yaml", {k: v for k, v in bad.items() if k != "message_defs"})
+                    bad_root = write("bad/root.yaml", {"message_defs": bad["message_defs"]}, imports=["lib.yaml"])
+                    write("good/lib.yaml", {k: v for k, v in everything.items() if k != "message_defs"})
+                    good_root = write("good/root.yaml", {"message_defs": everything["message_defs"]}, imports=["lib.yaml"])
+                pr = PP.Parser(import_coredefs=False)
+                for h in list(pr.logger.handlers):
+                    pr.logger.removeHandler(h)
+                seq = []
+                v1 = parse(pr, bad_root)
+                seq.append(("conflict program", v1))
+                if v1 != fail:
+                    out.append({"kind": "verdict", "cls": "reused-parser", "expected": fail, "got": v1, "case": {"cls": "reused-parser", "graph": graph, "step": "first"}})
+                    continue
+                for step in ("after a failed parse", "after a successful parse", "after a second failure"):
+                    if step == "after a second failure":
+                        parse(pr, bad_root)
+                    v = parse(pr, good_root)
+                    if v != "ok":
+                        out.append({"kind": "verdict", "cls": "reused-parser", "expected": "ok", "got": v,
+                                    "case": {"cls": "reused-parser", "graph": graph, "first_failure": fail, "step": step}})
+                        break
+                    have = sorted(n for sec in ("constants", "string_constants", "aliases", "struct_defs", "message_defs", "module_ids", "host_ids") for n in getattr(pr, sec))
+                    want = sorted(["KEEP_C", "KEEP_S", "KEEP_A", "KEEP_H", "KEEP_M", "KEEP_ST", "KEEP_MS", "KEEP_SIG"])
+                    if have != want:
+                        out.append({"kind": "registry", "section": "all", "expected": want, "got": have, "case": {"cls": "reused-parser", "graph": graph, "first_failure": fail, "step": step}})
+                        break
+                else:
+                    out.append(None)
+    finally:
+        core.rmtree(d)
+    return out
+
+
 def run_chunk(cs):
     d = core.scratch_dir("c12")
     out = []
@@ -397,6 +503,12 @@ def run(tier: str) -> int:
             if r is not None:
                 chk.violation(f"C12:{r['kind']}:{r.get('cls', r.get('section', ''))}:{r.get('expected', '') if r['kind'] == 'verdict' else ''}", f"{r}", {"module": "vf.checks.c12", "case": case},
                               size=len(str(case)))
+    # one Parser object used again
+    rp = reused_parser()
+    chk.count("reused_parser_sequences", len(rp))
+    for r in rp:
+        if r is not None:
+            chk.violation(f"C12:{r['kind']}:reused-parser:{r.get('expected', '')}", f"{r}", {"module": "vf.checks.c12", "case": r["case"], "reused": True}, size=50)
     # the command line exits non-zero on a conflict and zero on a conflict-free program
     d = core.scratch_dir("c12cli")
     try:
@@ -420,6 +532,12 @@ def run(tier: str) -> int:
 
 
 def replay(case) -> int:
+    if case.get("reused"):
+        hit = [r for r in reused_parser() if r is not None]
+        for r in hit:
+            print("  PROBLEM:", r)
+        print("reproduced" if hit else "NOT reproduced")
+        return 1 if hit else 0
     d = core.scratch_dir("c12r")
     try:
         c = case["case"]
